@@ -83,6 +83,16 @@ theorem literal_kind_invariance (d : Doc) (hd : NumsOK (.obj d)) (c c' : Crit)
     (h : Crit.SameUpToKinds c c') (hc : c.LitsOK) (hc' : c'.LitsOK) :
     sat likeFn fnFam d c = sat likeFn fnFam d c' := sat_sameUpToKinds likeFn fnFam d hd h hc hc'
 
+/-- (translated, regenerated from the source on every run) **the connectives as the current source evaluates them**:
+    `BinaryCriteria.Satisfy` (and / or) and `NotCriteria.Satisfy`, with each sub-criterion standing for its answer on the
+    document, are the model's `sat` on `.and`, `.or`, `.not` - the Boolean algebra of C16 rests on exactly these. -/
+theorem source_connectives_are_the_models (likeFn : LikeFn) (fnFam : FnFam) (d : Doc) (a b : Crit) :
+    Gen.BinaryCriteria_Satisfy ⟨"LogicalAnd", sat likeFn fnFam d a, sat likeFn fnFam d b⟩ = sat likeFn fnFam d (.and a b) ∧
+    Gen.BinaryCriteria_Satisfy ⟨"LogicalOr", sat likeFn fnFam d a, sat likeFn fnFam d b⟩ = sat likeFn fnFam d (.or a b) ∧
+    Gen.NotCriteria_Satisfy ⟨sat likeFn fnFam d a⟩ = sat likeFn fnFam d (.not a) :=
+  ⟨(Translated.binarySatisfy_eq likeFn fnFam d a b).1, (Translated.binarySatisfy_eq likeFn fnFam d a b).2,
+   Translated.notSatisfy_eq likeFn fnFam d a⟩
+
 /-- (translated, regenerated from the source on every run) **the comparison criteria as the current source evaluates
     them**: `UnaryCriteria.compare` (Gt / GtEq / Lt / LtEq; its `panic` is not reached for these operators),
     `UnaryCriteria.eq` and `UnaryCriteria.exist`, translated statement by statement, are the model's `satCmp` and
@@ -100,7 +110,7 @@ end CV.Props.C16
 namespace CV.Props.C16
 
 /-- (facts, regenerated from the source on every run) **The source text the model transcribes is the text of the
-    current source**: the bodies (comments and layout removed) of the 48 functions the model behind C16 was written from and
+    current source**: the bodies (comments and layout removed) of the 46 functions the model behind C16 was written from and
     validated against.  Any edit of one of them breaks this theorem at build time; the check then searches with the
     property's own oracles for a failing input, and reports `no-failing-input-found` if it finds none: the model then
     has to be re-validated against the new text (and this block regenerated). -/
@@ -122,11 +132,9 @@ theorem source_decision_logic : CV.Facts.logicC16 = [
   "query.BinaryCriteria.And: { return and(c, other) }", 
   "query.BinaryCriteria.Not: { return not(c) }", 
   "query.BinaryCriteria.Or: { return or(c, other) }", 
-  "query.BinaryCriteria.Satisfy: { if c.OpType == LogicalAnd { return c.C1.Satisfy(doc) && c.C2.Satisfy(doc) } return c.C1.Satisfy(doc) || c.C2.Satisfy(doc) }", 
   "query.NotCriteria.And: { return and(c, other) }", 
   "query.NotCriteria.Not: { return not(c) }", 
   "query.NotCriteria.Or: { return or(c, other) }", 
-  "query.NotCriteria.Satisfy: { return !c.C.Satisfy(doc) }", 
   "query.Query.MatchFunc: { return q.Where(newCriteria(FunctionOp, \"\", p)) }", 
   "query.Query.Where: { newQuery := q.copy() newQuery.criteria = c return newQuery }", 
   "query.Query.copy: { return &Query{ collection: q.collection, criteria: q.criteria, limit: q.limit, skip: q.skip, sortOpts: q.sortOpts, } }", 
